@@ -400,8 +400,14 @@ class Wikicode(StringMixIn):
         includes strings or other :class:`.Wikicode` or :class:`.Node` objects.
         """
         nodes = parse_anything(value).nodes
-        for node in reversed(nodes):
-            self.nodes.insert(index, node)
+        # Resolve the index once, as list.insert() would, so that a negative or
+        # out-of-range index does not reverse the order of the inserted nodes:
+        length = len(self.nodes)
+        if index < 0:
+            index = max(index + length, 0)
+        index = min(index, length)
+        for offset, node in enumerate(list(nodes)):
+            self.nodes.insert(index + offset, node)
 
     def insert_before(self, obj, value, recursive=True):
         """Insert *value* immediately before *obj*.
